@@ -3,7 +3,7 @@
    the result and rendering again gives the same text. *)
 From Boltons Require Import Lib.Prelude Lib.C06_Text Spec.C06_Spec Model.C06_Model
   Proofs.C06_Codec Proofs.C06_Quote Proofs.C06_Lists Proofs.C06_Round Proofs.C06_Shape
-  Proofs.C06_QuoteMin Proofs.C06_Parts Proofs.C06_RoundMin.
+  Proofs.C06_QuoteMin Proofs.C06_Parts Proofs.C06_RoundMin Proofs.C06_NoAuth.
 Open Scope N_scope.
 
 Theorem fixpoint_full_parsed T O :
@@ -59,4 +59,27 @@ Proof.
   destruct u as [scheme sep user pw fam host port path q frag]. cbn in *. subst path. cbn [tl] in Fr.
   apply (fixpoint_min_class T O TOK DOK scheme sep user pw fam host port rest q frag b4
            S1 N0 IDEM NN Su Sp Fr Fq Sf HNE F6 HC I4 DEC PV).
+Qed.
+
+(* references without userinfo and host (mailto:x, urn:a:b, /abs, rel/path?q#f, x:///p ...): for u = URL(t) *)
+Theorem fixpoint_full_parsed_na T O :
+  tables_ok T = true ->
+  forall t u,
+  let nfc := o_nfc O in
+  url_init T O t = MOk u ->
+  u_user u = [] -> u_pass u = [] -> u_host u = [] -> u_path u <> [] ->
+  nfc [] = [] -> (forall x, nfc (nfc x) = nfc x) ->
+  Forall (fun s => all_scalar (nfc s) = true) (u_path u) -> Forall (C06_Round.pair_ok O) (u_query u) ->
+  all_scalar (nfc (u_frag u)) = true ->
+  (* a scheme-less reference must not render with a ':' before its first '/' (it would read as a scheme) *)
+  (u_scheme u = [] -> noscheme (join [47] (map (quote_full T O CPath) (u_path u))) = true) ->
+  forall t1 u1, to_text T O true u = MOk t1 -> t1 <> [] -> url_init T O t1 = MOk u1 -> to_text T O true u1 = MOk t1.
+Proof.
+  intros TOK t u nfc P EU EP EH NEp N0 IDEM Fp Fq Sf NS.
+  destruct (parsed_shape T O t u P) as [S1' _].
+  assert (S1 : forallb (not_in [58; 47; 63; 35]) (u_scheme u) = true).
+  { destruct (u_scheme u) as [|c0 cr] eqn:ES; [reflexivity|]. apply S1'. discriminate. }
+  clear S1'.
+  destruct u as [scheme sep user pw fam host port path q frag]. cbn in *. subst user pw host.
+  apply (fixpoint_full_na T O TOK scheme sep fam port path q frag S1 N0 IDEM NEp Fp Fq Sf NS).
 Qed.
